@@ -180,6 +180,19 @@ Definition lca_abci_ok (en : env) (e : evidence) (ab : list (Z * N * Z * Z * Z *
   | EvDup _ => true
   | EvLca l => abci_ok en l ab
   end.
+(* kind of attack the specification sees in a light client attack evidence (selects the clause
+   number reported): 0 lunatic, 1 equivocation, 2 amnesia / no block to compare with; 3 not a
+   light client attack *)
+Definition kind_code (en : env) (e : evidence) : N :=
+  match e_body e with
+  | EvDup _ => 3%N
+  | EvLca l =>
+    match reference en l with
+    | Some (_, t) => match classify l t with Lunatic => 0 | Equivocation => 1 | Amnesia => 2 end%N
+    | None => 2%N
+    end
+  end.
+Definition first_bad (f : nat -> bool) (l : list nat) : option nat := find (fun j => negb (f j)) l.
 Definition abci_eqb (a b : Z * N * Z * Z * Z * Z) : bool :=
   let '(t1, a1, p1, h1, m1, w1) := a in
   let '(t2, a2, p2, h2, m2, w2) := b in
@@ -248,10 +261,20 @@ Definition step_check (en : env) (tbl : list evidence) (abs : list (list (Z * N 
     let e := evof tbl i in valid_spec en st e && negb (kmem (e_key e) (m_committed m)) in
   (* light client attack evidence: what entered the pool / was accepted in a block lists exactly
      the specified byzantine validators, and ABCI() reports exactly those *)
-  let listed_ok (l : list nat) := forallb (fun j => lca_listed_ok en (evof tbl j)) l in
+  let listed (l : list nat) : verdict :=        (* clauses 11 / 12 / 13 by kind of attack *)
+    match first_bad (fun j => lca_listed_ok en (evof tbl j)) l with
+    | None => V_ok
+    | Some j => V_violation (11 + kind_code en (evof tbl j))
+    end in
   let reported_ok (l : list nat) :=
     forallb (fun j => lca_abci_ok en (evof tbl j) (abof j)) l in
   let uncommitted (i : nat) := negb (kmem (e_key (evof tbl i)) (m_committed m)) in
+  let refused (ok : bool) (l : list nat) : verdict :=   (* clauses 15 / 16 / 17 / 18 *)
+    if ok then V_ok
+    else V_violation (15 + match find (fun j => is_lca (evof tbl j)) l with
+                           | Some j => kind_code en (evof tbl j)
+                           | None => 3
+                           end) in
   let monitors :=
     [ (* size = number of pending items *)
       viol (obs_size o =? Z.of_nat (length pend)) 8;
@@ -264,20 +287,20 @@ Definition step_check (en : env) (tbl : list evidence) (abs : list (list (Z * N 
                        end) gone) 9 ] ++
     match x with
     | XAdd i r =>
-      [ viol (listed_ok fresh) 11;
-        viol (reported_ok fresh) 12;
+      [ listed fresh;
+        viol (reported_ok fresh) 14;
         (* valid evidence that was not committed is not refused and is pending afterwards *)
-        viol (negb (spec_valid en st (evof tbl i) && uncommitted i)
-              || ((r =? 0) && kmem (e_key (evof tbl i)) newk)) 13;
+        refused (negb (spec_valid en st (evof tbl i) && uncommitted i)
+                 || ((r =? 0) && kmem (e_key (evof tbl i)) newk)) [i];
         viol (forallb (fun j => Nat.eqb j i || kmem (e_key (evof tbl j)) [e_key (evof tbl i)]) fresh
               && forallb admitted_ok fresh) 1 ]
     | XCheck l r =>
-      [ viol (listed_ok fresh && (negb (r =? 0) || listed_ok l)) 11;
-        viol (reported_ok fresh && (negb (r =? 0) || reported_ok l)) 12;
+      [ listed (fresh ++ (if r =? 0 then l else []));
+        viol (reported_ok fresh && (negb (r =? 0) || reported_ok l)) 14;
         (* a list of distinct, valid, uncommitted evidence is not refused *)
-        viol (negb (forallb (fun i => spec_valid en st (evof tbl i) && uncommitted i) l
-                    && nodupN (map (fun i => e_hash (evof tbl i)) l))
-              || (r =? 0)) 13;
+        refused (negb (forallb (fun i => spec_valid en st (evof tbl i) && uncommitted i) l
+                       && nodupN (map (fun i => e_hash (evof tbl i)) l))
+                 || (r =? 0)) l;
         viol (forallb (fun j => kmem (e_key (evof tbl j)) (keys_of tbl l)) fresh
               && forallb admitted_ok fresh) 1;
         viol (negb (r =? 0) || nodupN (map (fun i => e_hash (evof tbl i)) l)) 3;
